@@ -22,7 +22,8 @@ ASSUMPTIONS = [
 ]
 MANIFEST = {'text': 'proof (all normal paths of the stage) of: no message-carrying value dropped un-drained, no clone, FIFO-only queue API, direct send and store on opposite edges of the '
                     'buffered-lifecycles test, a queue-drain test after every un-buffering, every message passes Lifecycle::new/update (which store `lifecycle` on every path) before it '
-                    'is sent or queued, and the stage writes no other message field.'}
+                    'is sent or queued, and the stage writes no other message field.'
+                    ' Added: inside the receive loop a message leaves the queue only where its lifecycle is known not to be buffered.'}
 
 QUEUE_OK = re.compile(r'::(with_capacity|new|push_back|pop_front|is_empty|len|iter|iter_mut|index|into_iter|front|capacity|get|back)$')
 
